@@ -146,6 +146,18 @@ CHECKS.update({
             "DESIGN.md 4/C08"),
 })
 
+CHECKS.update({
+    "C04": ("exploration",
+            "exhaustive enumeration of a typed expression grammar up to an operator bound x transactions; differential execution of the real evaluator against an independent reference interpreter (translation to Python) plus equivalence-law instances",
+            "All 6.3k (quick, <=2 operators) / ~100k (thorough, <=3) well-typed expressions over Bool/Num/Str/Rows layers are evaluated on 12 boundary transactions with supplemental "
+            "rows by the real evaluator and by mc/ref/expr.py; wherever the reference is defined the values must be identical. On every ordered pair of a 28-element Boolean basis x "
+            "every transaction: double negation, both De Morgan laws, commutation of error-free and/or operands, letter-case invariance (names, literals, description), and "
+            "agreement of evaluate_transaction with matches_transaction and a one-rule engine; all chains a o1 b o2 c over 6 operands x 36 operator pairs equal their conjunction; "
+            "short-circuit with 5 erroring operands and := evaluation-order probes.",
+            "reference clauses as tabulated in DESIGN.md; cases where the reference raises belong to C08; fuzzy thresholds and non-ASCII folding not judged",
+            "DESIGN.md 4/C04"),
+})
+
 NOT_YET = {}
 
 PROPS = [json.loads(l)["id"] for l in open(os.path.join(ROOT, "properties.jsonl"))]
